@@ -33,6 +33,7 @@ type simSide struct {
 	cclosed    map[uint32]bool
 	q          map[uint32]int
 	budget     int
+	stall      bool // the failure of the outgoing direction is transient (recConn.cutErr)
 	pend       []func()
 	unread     int // frames waiting in this end's socket buffer while its reader is still blocked
 	events     []evObs
@@ -58,7 +59,7 @@ type sim struct {
 func newSim(s *scriptScn) *sim {
 	m := &sim{qlen: s.QLen, orderly: true, unix: s.Transport == "unix"}
 	for i := 0; i < 2; i++ {
-		sd := &simSide{raw: s.Raw[i], blocked: s.Blocked[i], opened: s.Open[i], budget: s.Cut[i],
+		sd := &simSide{raw: s.Raw[i], blocked: s.Blocked[i], opened: s.Open[i], budget: s.Cut[i], stall: s.CutErr[i] != "",
 			mapped: map[uint32]bool{}, cclosed: map[uint32]bool{}, q: map[uint32]int{}, recv: map[uint32][]string{}}
 		for _, id := range s.Open[i] {
 			sd.mapped[id] = true
@@ -66,7 +67,7 @@ func newSim(s *scriptScn) *sim {
 		m.side[i] = sd
 	}
 	for i := 0; i < 2; i++ {
-		if s.Cut[i] == 0 {
+		if s.Cut[i] == 0 && s.CutErr[i] == "" {
 			m.cutHappens(i)
 		}
 	}
@@ -281,22 +282,34 @@ func (m *sim) doWrite(i int, id uint32, seq, size int, r actRes) {
 			sd.budget -= flen
 		}
 		m.onFrame(1-i, id)
-		if sd.budget == 0 {
+		if sd.budget == 0 && !sd.stall {
 			m.cutHappens(i)
 		}
 		return
 	}
-	// the trunk fails inside this Write
-	n := sd.budget // n of the failing trunk.Write call
-	if sd.budget >= 8 {
+	// the trunk fails inside this Write: in the header call (n = budget < 8) or in the payload call
+	n, inPayload := sd.budget, sd.budget >= 8
+	if inPayload {
 		n = sd.budget - 8
 	}
 	if sd.budget > 0 {
 		sd.sent = append(sd.sent, sentW{id, hx})
 	}
-	sd.budget = 0
-	if n != 0 {
-		m.selfClose(i) // setError + Close inside mux.write
+	if sd.stall {
+		sd.budget = -1 // transient: the trunk takes bytes again
+	} else {
+		sd.budget = 0
+	}
+	if n != 0 || inPayload {
+		// setError + Close inside mux.write: part of the frame is out (a header without its payload counts)
+		m.selfClose(i)
+		m.cutHappens(i)
+		return
+	}
+	if sd.stall {
+		// the header call wrote nothing, nothing of the frame is out: the Mux lives and the trunk carries on
+		m.ev(i, "EvTrunkUp", "ONone")
+		return
 	}
 	m.cutHappens(i)
 }
